@@ -68,7 +68,7 @@ def classify(path, a, b):
     return g + "/altered"
 
 
-def check_file(kind, path, before, decimals, sink, wit):
+def check_file(kind, path, before, decimals, sink, wit, scenario_only=False):
     """kind 'xml'|'pb'; returns list of violation keys"""
     from commonroad.common.file_reader import CommonRoadFileReader
     prop = "C01" if kind == "xml" else "C02"
@@ -84,7 +84,8 @@ def check_file(kind, path, before, decimals, sink, wit):
              "pps": S.snap_pps(pps2)}
     relax_initial_defaults(before, after)
     ok = S.real_ok_xml(decimals) if kind == "xml" else S.real_ok_bits
-    diffs = S.diff({"scenario": before["scenario"], "pps": before["pps"]}, after, ok)
+    # a scenario-only file (write_scenario_to_file) carries no planning problems
+    diffs = S.diff({"scenario": before["scenario"], "pps": {} if scenario_only else before["pps"]}, after, ok)
     seen = set()
     for p, a, b in diffs:
         key = "%s/round-trip%s" % (prop, classify(p, a, b))
@@ -150,6 +151,23 @@ def post_write(self, filename, OLD):
     return True
 
 
+def post_write_scenario(self, filename, OLD):
+    try:
+        sink = M.SINK
+        if sink is None or isinstance(OLD.before, Exception) or not filename or not os.path.isfile(str(filename)):
+            return True
+        from commonroad.common.writer.file_writer_interface import precision
+        kind = OLD.before["fmt"]
+        wit = {"file": os.path.basename(str(filename)), "precision": precision.decimals, "method": "write_scenario_to_file"}
+        wit.update(getattr(sink, "case_wit", None) or {})
+        sink.counter("contract.%s.write_scenario_to_file" % kind)
+        # (no XSD validation: the schema requires at least one planning problem, a scenario-only file has none)
+        check_file(kind, str(filename), OLD.before, precision.decimals, sink, wit, scenario_only=True)
+    except Exception as e:  # noqa
+        M.SINK.counter("monitor-internal-error:" + type(e).__name__)
+    return True
+
+
 def install():
     if not M.enabled() or not M.once("roundtrip"):
         return
@@ -162,4 +180,6 @@ def install():
 
     for cls in (XMLFileWriter, ProtobufFileWriter):
         M.decorate(cls, "write_to_file", icontract.ensure(post_write, error=RoundTripContractBroken),
+                   icontract.snapshot(snap_writer, name="before"))
+        M.decorate(cls, "write_scenario_to_file", icontract.ensure(post_write_scenario, error=RoundTripContractBroken),
                    icontract.snapshot(snap_writer, name="before"))
